@@ -129,7 +129,18 @@ def _url(s):
     return [bool(r.netloc), bool(r.scheme), r.geturl()]
 
 
+_SF_CACHE = {}
+
+
 def str_facts(s):
+    if s not in _SF_CACHE:
+        if len(_SF_CACHE) > 20000:
+            _SF_CACHE.clear()
+        _SF_CACHE[s] = _str_facts(s)
+    return _SF_CACHE[s]
+
+
+def _str_facts(s):
     low = s.lower()
     bk = None
     for i, m in enumerate(BOOL_MAPS):
@@ -205,8 +216,13 @@ def payload(v, null):
 
 
 def _strEq(v):
-    r = (str(v) == v)
-    return bool(r)
+    """`series.astype(str).values == series.values` for this element (the library operation itself: with the
+    arrow-backed string dtype it is e.g. True for bytes and raises for tuples)"""
+    a = np.empty(1, dtype=object)
+    a[0] = v
+    s = pd.Series(a, dtype=object)
+    r = (s.astype(str).values == s.values)
+    return bool(r[0]) if hasattr(r, "__getitem__") else bool(r)
 
 
 def _path_image(v):
